@@ -1,0 +1,31 @@
+//go:build verif
+
+package mice
+
+// Contracts for govc (comment-only; compiled only with -tags verif).
+// SHA-256 is an uninterpreted function of the bytes fed to the hash
+// (stdlib/hash.spec); recOK is the draft's record validation equation.
+
+//@ def recOK(rec bytes, proof bytes, last bool) bool = sha256of(cat(cat(emptyBytes(), rec), byte1(last ? 0 : 1))) == proof
+
+//@ func validateRecord
+//@   props C15 C14 C01
+//@   ensures[is-the-record-equation] result == recOK(bytes(record), bytes(proof), isLastRecord)
+//@   assigns nothing
+
+// readNextRecord: on success the bytes exposed in d.out were validated
+// against the proof that was current on entry: a full record with flag 1
+// (then nextProof becomes the proof that followed it) or the final short
+// record with flag 0 (then nextProof becomes nil). On error nothing is
+// exposed.
+//@ func (*decoder).readNextRecord
+//@   props C15 C10
+//@   requires d.r != nil && d.nextProof != nil && len(d.nextProof) == 32 && d.recordSize >= 1 && len(d.recordBuf) == d.recordSize + 32 && len(d.out) == 0
+//@   requires base(d.recordBuf) != base(d.nextProof) && d.recordBuf != nil
+//@   ensures[not-last-validated] result == nil && d.nextProof != nil ==> recOK(bytes(d.recordBuf), old(bytes(d.nextProof)), false) && len(d.out) == d.recordSize && bytes(d.nextProof) == bytes(d.recordBuf[d.recordSize:])
+//@   ensures[last-validated] result == nil && d.nextProof == nil ==> recOK(bytes(d.out), old(bytes(d.nextProof)), true) && len(d.out) <= d.recordSize
+//@   ensures[out-is-record-prefix] result == nil ==> base(d.out) == base(d.recordBuf) && off(d.out) == off(d.recordBuf)
+//@   ensures[error-exposes-nothing] result != nil ==> len(d.out) == 0
+//@   ensures[clean-eof-only-after-last] result == io.EOF ==> d.nextProof == nil && d.encoding == Draft02Encoding && recOK(emptyBytes(), old(bytes(d.nextProof)), true)
+//@   ensures spos(d.r) >= old(spos(d.r)) && spos(d.r) <= send(d.r)
+//@   assigns d.out, d.nextProof, elems(d.recordBuf), elems(d.nextProof), spos(d.r)
